@@ -433,6 +433,9 @@ impl Property for ScProp {
                 // not this property's rule family: remember it, but still evaluate this property's own
                 // history checkers (they do not depend on the prediction)
                 verdict.other_rules.push(format!("refinement.{}", d.family));
+                if std::env::var("VERIF_DEBUG_DIVERGENCE").is_ok() {
+                    eprintln!("FOREIGN DIVERGENCE {}: {}", d.family, msg);
+                }
                 foreign = Some(d.family);
             }
         }
